@@ -306,7 +306,7 @@ func (c *compiler) compileSlice(p *parallel, ce *ast.CallExpr) *sliceTask {
 		elemParamPos = 0
 	}
 
-	if !types.AssignableTo(fn.Inputs[elemParamPos], slc.Elem()) {
+	if !types.AssignableTo(slc.Elem(), fn.Inputs[elemParamPos]) {
 		c.errf(c.nodePosition(slce), "slice element of type %v cannot be passed as a parameter to function expecting %v", slc.Elem(), fn.Inputs[elemParamPos])
 		return nil
 	}
@@ -362,12 +362,12 @@ func (c *compiler) compileMap(ce *ast.CallExpr) *mapTask {
 		return nil
 	}
 
-	if !types.AssignableTo(fn.Inputs[0], mtype.Key()) {
+	if !types.AssignableTo(mtype.Key(), fn.Inputs[0]) {
 		c.errf(c.nodePosition(mmap), "key element of type %v cannot be passed as a parameter to function expecting %v", mtype.Key(), fn.Inputs[0])
 		return nil
 	}
 
-	if !types.AssignableTo(fn.Inputs[1], mtype.Elem()) {
+	if !types.AssignableTo(mtype.Elem(), fn.Inputs[1]) {
 		c.errf(c.nodePosition(mmap), "value element of type %v cannot be passed as a parameter to function expecting %v", mtype.Elem(), fn.Inputs[1])
 		return nil
 	}
